@@ -1,9 +1,90 @@
 import DspVerif.Driver.Proto
-/-! driver handlers for C19 (stub: no correspondence cases handled yet) -/
+import DspVerif.Model.Noise
+/-! driver handlers for C19 -/
 namespace Dsp.Driver
-open Dsp.Proto
+open Dsp.Proto Dsp.Noise
+
+/-- `(int)std::round(x)` (NaN → 0 after the clamp, as on x86-64) -/
+def rndF (x : Float) : Int := (Float.round x).toInt64.toInt
+
+def fmtThd (r : ThdRes Float) : String :=
+  fmtF r.value ++ " " ++ fmtFloatArr r.harmpow.toArray ++ " " ++ fmtFloatArr r.harmfreq.toArray
+
+def specFn (a : Array Float) : Nat → Float := fun i => a[i]!
+
+def cmdOf (kind n : Nat) (lo hi : Int) (a b snr : Float) : Option (Cmd Float) :=
+  let xr : List Float := (List.range n).map (fun i => a + Float.cos (0.7 * Float.ofNat i))
+  let xc : List (Cx Float) := (List.range n).map (fun i => ⟨a + Float.cos (0.7 * Float.ofNat i), Float.sin (0.3 * Float.ofNat i)⟩)
+  match kind with
+  | 0 => some .rand
+  | 1 => some (.randArr n)
+  | 2 => some (.randRange a b n)
+  | 3 => some .randn
+  | 4 => some (.randnArr n)
+  | 5 => some (.randi1 hi)
+  | 6 => some (.randi1Arr hi n)
+  | 7 => some (.randi lo hi)
+  | 8 => some (.randiArr lo hi n)
+  | 9 => some (.awgnR xr snr)
+  | 10 => some (.awgnC xc snr)
+  | _ => none
+
+def parseOps : Nat → List String → Option (List (Cmd Float))
+  | 0, _ => some []
+  | k + 1, kind :: n :: lo :: hi :: a :: b :: snr :: rest => do
+    let c ← cmdOf (← kind.toNat?) (← n.toNat?) (← parseI lo) (← parseI hi) (← parseF a) (← parseF b) (← parseF snr)
+    let cs ← parseOps k rest
+    some (c :: cs)
+  | _, _ => none
+
+def outTokens : Out Float → List String
+  | .unit => []
+  | .real v => [fmtF v]
+  | .reals v => v.map fmtF
+  | .int v => [toString v]
+  | .ints v => v.map toString
+  | .cmplxs v => v.flatMap (fun z => [fmtF z.re, fmtF z.im])
 
 def h19 : List String → Option String
+  | "awgnR" :: snr :: rest => do
+    let snr ← parseF snr
+    let (x, rest) ← takeFloats rest
+    let (z, _) ← takeFloats rest
+    some (fmtFloatArr (awgnR x.toList z.toList snr).toArray)
+  | "awgnC" :: snr :: rest => do
+    let snr ← parseF snr
+    let (x, rest) ← takeCxs rest
+    let (zre, rest) ← takeFloats rest
+    let (zim, _) ← takeFloats rest
+    some (fmtCxArr (awgnC x.toList zre.toList zim.toList snr).toArray)
+  | "harm" :: nharm :: al :: rest => do
+    let nharm ← nharm.toNat?
+    let al := al == "1"
+    let (sp, _) ← takeFloats rest
+    let s := specFn sp
+    let n := sp.size
+    let t := if nharm > 1 then fmtThd (thdPsd rndF n s nharm al) else "ERR"
+    some (t ++ " " ++ fmtF (snrPsd rndF n s nharm al) ++ " " ++ fmtF (sinadPsd rndF n s))
+  | "pgram" :: rest => do
+    let (x, rest) ← takeFloats rest
+    let (w, _) ← takeFloats rest
+    some (fmtFloatArr (periodogram w.toList x.toList).toArray)
+  | "measT" :: nharm :: al :: rest => do
+    let nharm ← nharm.toNat?
+    let al := al == "1"
+    let (x, rest) ← takeFloats rest
+    let (w, _) ← takeFloats rest
+    let p := (periodogram w.toList x.toList).toArray
+    let s := specFn p
+    let r := thdPsd rndF p.size s nharm al
+    some (fmtF r.value ++ " " ++ fmtFloatArr r.harmfreq.toArray ++ " " ++ fmtF (snrPsd rndF p.size s nharm al) ++ " " ++
+      fmtF (sinadPsd rndF p.size s))
+  | "stream" :: seed :: imf :: len :: rest => do
+    let seed ← parseI seed
+    let prog ← parseOps (← len.toNat?) rest
+    let (outs, _) := run stdMT (imf == "1") prog (rng stdMT seed (MT.seed 0))
+    let toks := outs.flatMap outTokens
+    some (String.intercalate " " (toString toks.length :: toks))
   | _ => none
 
 end Dsp.Driver
